@@ -5,9 +5,12 @@ base-fact set, rule order and fuel). Correspondence: generated stratifiable prog
 evaluated by engine.EvalProgram on every fact-store kind (Go harness `c01`) and by the
 model `eval_program` inside Coq; the fact sets must be equal. A disagreement on a program
 accepted by the analysis is a property violation on that input.
-Alias stream: variable-variable aliasing is outside the model; every program is also run
-against variants of itself that differ only by aliasing equalities (Go vs Go, equal results
-required), see notes/C01.md "Alias stream".
+Alias stream: variable-variable aliasing is outside the model Solve.v; every program is
+also run against variants of itself that differ only by aliasing equalities (Go vs Go, equal
+results required), see notes/C01.md "Alias stream". Alias-aware model: Datalog/SolveUF.v keeps
+the union-find substitutions (variable -> variable chains); every variant is ALSO compared
+with it (Run.C01.judge_uf), every original goes through both models, see notes/C01.md
+"Alias-aware model".
 """
 import glob
 import itertools
@@ -615,10 +618,14 @@ def run(ck):
     return ck.finish(cov, assumptions=[
         "model hand-written (coq/Datalog/*.v); tied to engine/seminaivebottomup.go, premise.go, transformer.go, "
         "functional.go by differential evaluation only",
-        "union-find substitutions abstracted to association lists; variable-variable aliasing is not in the Coq model: "
-        "it is covered by the alias stream, which compares Go with Go (variant vs alias-free original) and relies on the "
-        "declarative equivalence of the two texts (argued in notes/C01.md, not machine-checked) and on the original's "
-        "agreement with the model",
+        "two models: Solve.v (union-find abstracted to association lists, no variable-variable aliasing; the least-model "
+        "theorems are about it) and SolveUF.v (union-find with aliasing, proved conservative over Solve.v; the least-model "
+        "theorem transfers to programs on which Solve.v reports no error, i.e. alias-free ones). Aliasing clauses are covered "
+        "by the alias stream: the variant is compared with the alias-free original on Go AND with SolveUF.v "
+        "(judge_uf, after analysis.RewriteClause as modelled by Analysis/RuleCheck.v rewrite); that variant and original derive "
+        "the same facts is machine-checked per clause (alias_elimination_sound: one alias variable eliminated, any "
+        "placement/orientation, hypotheses: both strict runs finish, transform variables not in the body), not for the whole "
+        "semi-naive loop",
         "fragment: names, strings, int64 numbers, pairs, lists; fn:plus/minus/mult/div/pair/cons/list/len; "
         "= != < <= > >=; let-transforms; no floats, maps, structs, temporal facts, external/deferred/merge predicates, do-transforms (C02)",
         "programs are safe by construction: != , comparisons and negated atoms after their binders (findings N19, F3 belong to C04), "
@@ -681,14 +688,23 @@ META = {
             "comparisons, arithmetic, pairs/lists, let) on all six fact-store kinds with and without deterministic order and "
             "comparing the complete fact sets with the model evaluated inside Coq; thorough adds an exhaustive block over a "
             "small rule schema. Variable-variable aliasing (equalities between unbound variables, union-find chains "
-            "Var -> Var -> constant), which the model does not have, is covered by an alias stream: each generated program and "
+            "Var -> Var -> constant), which that model does not have, is covered by an alias stream: each generated program and "
             "declaratively equivalent variants (occurrences of a variable handed to fresh variables tied to it by equalities "
             "written before or after its binder, chains of up to 3, aliases used in the let-transform / head / negated atom / "
             "comparison / != / function argument; only variants the real analysis accepts) are evaluated by Go and must give "
-            "the same error class and fact set.",
-    "note": "Trusted: Coq kernel + vm_compute; the hand-written model is tied to the Go code only by differential evaluation "
-            "(sampled; exhaustive on the 2-rule schema). Union-find abstracted to association lists; the alias stream compares "
-            "Go with Go and rests on the (hand-argued) declarative equivalence of variant and original. Safety of clauses "
-            "(C04), do-transforms (C02), hash collisions in stores (F8) and temporal facts are outside; stratification "
-            "independence is tested, not proved.",
+            "the same error class and fact set. A second, alias-aware model (Datalog/SolveUF.v: union-find substitutions with "
+            "variable -> variable chains, unification as UnifyTermsExtend, the let path through AsConstSubstList) judges every "
+            "variant directly (judge_uf) and every original next to the first model; theorems: it is conservative over the "
+            "first model (same solutions, facts and program outcome wherever that one answers, so the least-model theorem "
+            "transfers), every solution resolves the variables of positive atoms and everything aliased to them through any "
+            "chain, its one-pass lookup equals the chain-following find, a strict run derives exactly the head instances of "
+            "the valuations satisfying every premise (order-independent), and eliminating an alias variable (equality "
+            "anywhere in the body, either orientation) does not change the facts a clause derives.",
+    "note": "Trusted: Coq kernel + vm_compute; the hand-written models are tied to the Go code only by differential evaluation "
+            "(sampled; exhaustive on the 2-rule schema). The least-model theorems are about the alias-free model; for aliasing "
+            "clauses the machine-checked part is per clause (alias_elimination_sound, under the hypotheses that both strict "
+            "runs finish and transform variables do not occur in the body), the whole-program equality of variant and "
+            "original is tested (Go vs Go, Go vs alias-aware model), not proved. Safety of clauses (C04), do-transforms "
+            "(C02), hash collisions in stores (F8) and temporal facts are outside; stratification independence is tested, "
+            "not proved.",
 }
